@@ -77,25 +77,27 @@ Record cfg := mkCfg { c_ext : bool;      (* on_socket_register_write / unregiste
 
 Record st := mkSt {
   cs : cstate; sock : option Z; regw : bool; outq : list qpkt; ping : bool; incb : bool;
+  cq : bool;                      (* _connect_queued: false between socket creation and the queuing of CONNECT *)
   proto : Z;
   nsock : Z;                      (* ghost: sockets created so far *)
   sched : list outcome; scr : scripts;
   tr : list event }.              (* newest first *)
 
 Definition init (c : cfg) : st :=
-  mkSt CsConnectAsync None false [] false false (c_proto c) 0 [] no_scripts [].   (* after connect_async(host) *)
+  mkSt CsConnectAsync None false [] false false false (c_proto c) 0 [] no_scripts [].   (* after connect_async(host) *)
 
-Definition set_cs x s := mkSt x (sock s) (regw s) (outq s) (ping s) (incb s) (proto s) (nsock s) (sched s) (scr s) (tr s).
-Definition set_sock x s := mkSt (cs s) x (regw s) (outq s) (ping s) (incb s) (proto s) (nsock s) (sched s) (scr s) (tr s).
-Definition set_regw x s := mkSt (cs s) (sock s) x (outq s) (ping s) (incb s) (proto s) (nsock s) (sched s) (scr s) (tr s).
-Definition set_outq x s := mkSt (cs s) (sock s) (regw s) x (ping s) (incb s) (proto s) (nsock s) (sched s) (scr s) (tr s).
-Definition set_ping x s := mkSt (cs s) (sock s) (regw s) (outq s) x (incb s) (proto s) (nsock s) (sched s) (scr s) (tr s).
-Definition set_incb x s := mkSt (cs s) (sock s) (regw s) (outq s) (ping s) x (proto s) (nsock s) (sched s) (scr s) (tr s).
-Definition set_proto x s := mkSt (cs s) (sock s) (regw s) (outq s) (ping s) (incb s) x (nsock s) (sched s) (scr s) (tr s).
-Definition set_nsock x s := mkSt (cs s) (sock s) (regw s) (outq s) (ping s) (incb s) (proto s) x (sched s) (scr s) (tr s).
-Definition set_sched x s := mkSt (cs s) (sock s) (regw s) (outq s) (ping s) (incb s) (proto s) (nsock s) x (scr s) (tr s).
-Definition set_scr x s := mkSt (cs s) (sock s) (regw s) (outq s) (ping s) (incb s) (proto s) (nsock s) (sched s) x (tr s).
-Definition emit e s := mkSt (cs s) (sock s) (regw s) (outq s) (ping s) (incb s) (proto s) (nsock s) (sched s) (scr s) (e :: tr s).
+Definition set_cs x s := mkSt x (sock s) (regw s) (outq s) (ping s) (incb s) (cq s) (proto s) (nsock s) (sched s) (scr s) (tr s).
+Definition set_sock x s := mkSt (cs s) x (regw s) (outq s) (ping s) (incb s) (cq s) (proto s) (nsock s) (sched s) (scr s) (tr s).
+Definition set_regw x s := mkSt (cs s) (sock s) x (outq s) (ping s) (incb s) (cq s) (proto s) (nsock s) (sched s) (scr s) (tr s).
+Definition set_outq x s := mkSt (cs s) (sock s) (regw s) x (ping s) (incb s) (cq s) (proto s) (nsock s) (sched s) (scr s) (tr s).
+Definition set_ping x s := mkSt (cs s) (sock s) (regw s) (outq s) x (incb s) (cq s) (proto s) (nsock s) (sched s) (scr s) (tr s).
+Definition set_incb x s := mkSt (cs s) (sock s) (regw s) (outq s) (ping s) x (cq s) (proto s) (nsock s) (sched s) (scr s) (tr s).
+Definition set_cq x s := mkSt (cs s) (sock s) (regw s) (outq s) (ping s) (incb s) x (proto s) (nsock s) (sched s) (scr s) (tr s).
+Definition set_proto x s := mkSt (cs s) (sock s) (regw s) (outq s) (ping s) (incb s) (cq s) x (nsock s) (sched s) (scr s) (tr s).
+Definition set_nsock x s := mkSt (cs s) (sock s) (regw s) (outq s) (ping s) (incb s) (cq s) (proto s) x (sched s) (scr s) (tr s).
+Definition set_sched x s := mkSt (cs s) (sock s) (regw s) (outq s) (ping s) (incb s) (cq s) (proto s) (nsock s) x (scr s) (tr s).
+Definition set_scr x s := mkSt (cs s) (sock s) (regw s) (outq s) (ping s) (incb s) (cq s) (proto s) (nsock s) (sched s) x (tr s).
+Definition emit e s := mkSt (cs s) (sock s) (regw s) (outq s) (ping s) (incb s) (cq s) (proto s) (nsock s) (sched s) (scr s) (e :: tr s).
 
 Definition is_connected (s : st) : bool := match cs s with CsConnected => true | _ => false end.
 Definition has_sock (s : st) : bool := match sock s with Some _ => true | None => false end.
@@ -254,6 +256,7 @@ Definition loop_write (s : st) : st * Z :=
   match sock s with
   | None => (s, E_NO_CONN)
   | Some _ =>
+      if negb (cq s) then (s, 0) else       (* CONNECT of this socket not queued yet: nothing is written *)
       let (s1, rc) := packet_write s in
       let (s2, rc2) := if rc =? E_AGAIN then (s1, 0)
                        else if rc >? 0 then loop_rc_handle rc s1 else (s1, 0) in
@@ -264,8 +267,11 @@ Definition loop_write (s : st) : st * Z :=
 (* _packet_queue (no background thread) *)
 Definition packet_queue (k : pkind) (s : st) : st * Z :=
   (* CONNECT goes ahead of whatever was queued since the socket was created *)
-  let s1 := set_outq (match k with KConnect => mkQ k false :: outq s | _ => outq s ++ [mkQ k false] end) s in
-  if negb (c_ext c) && negb (incb s1) then loop_write s1
+  let s1 := match k with
+            | KConnect => set_cq true (set_outq (mkQ k false :: outq s) s)
+            | _ => set_outq (outq s ++ [mkQ k false]) s
+            end in
+  if negb (c_ext c) && cq s1 && negb (incb s1) then loop_write s1
   else (call_regw s1, 0).
 
 (* the body of reconnect(); ok = false: _create_socket raises OSError *)
@@ -273,10 +279,10 @@ Definition reconnect_body (ok : bool) (s : st) : st * option Z :=
   let s1 := set_cs CsConnecting (set_ping false s) in
   let s2 := sock_close RReplaced s1 in
   let s3 := set_outq [] s2 in
-  if negb ok then (emit Raised s3, None)
+  if negb ok then (emit Raised (set_cq false s3), None)
   else
     let id := nsock s3 + 1 in
-    let s4 := emit (SockNew id) (set_regw false (set_sock (Some id) (set_nsock id s3))) in
+    let s4 := emit (SockNew id) (set_regw false (set_sock (Some id) (set_nsock id (set_cq false s3)))) in
     let s5 := if c_sockcb c then run_site SiOpen false (SockOpen id) s4 else s4 in
     let (s6, rc) := packet_queue KConnect s5 in (s6, Some rc).
 
@@ -425,7 +431,7 @@ Definition nscripts (q : scripts) : nat :=
 (* one top-level operation: load the schedule and the scripts, run, observe at the end *)
 Definition step (c : cfg) (s : st) (o : op) : st * list event :=
   let s0 := set_incb false (set_sched (o_sched o) (set_scr (o_scr o)
-              (mkSt (cs s) (sock s) (regw s) (outq s) (ping s) (incb s) (proto s) (nsock s) (sched s) (scr s) []))) in
+              (mkSt (cs s) (sock s) (regw s) (outq s) (ping s) (incb s) (cq s) (proto s) (nsock s) (sched s) (scr s) []))) in
   let s1 := run_top c (nested_at c (nscripts (o_scr o))) (o_call o) s0 in
   let s2 := obs WEnd s1 in
   (set_sched [] (set_scr no_scripts s2), rev (tr s2)).
